@@ -17,7 +17,8 @@
      skip_set terminals skip   self.skip_tokens: the argument, or SPACE and COMMENT when they are terminals
      build_cfg cfg skip ug smart start     the constructor with this tokenizer configuration
      parse_text cfg skipset p k text s     LLParser.parse(text, do_cleanup=False, start_symbol_name=s):
-                         the assertion s in prods_map, tokenize, drop the tokens named in skipset, main loop
+                         the assertions s in prods_map and '__' not in s (the latter since /repo 2909322),
+                         tokenize, drop the tokens named in skipset, main loop
                          started at s (None: the constructor's start symbol), budget 2^k iterations
      call_root p s       the start symbol of the call
    lexicon_ok: no literal / end-of-line pattern is empty (an alternative that matches the empty string makes
@@ -39,7 +40,6 @@ Theorem parse_text_sound : forall cfg skip ug smart start p k text s t,
   lexicon_ok (c_lex cfg) ->
   mem END_TOKEN (cfg_terminals cfg) = false ->
   build_cfg cfg skip ug smart start = Ok p ->
-  mem (call_root p s) (p_sfxs p) = false ->
   parse_text cfg (skip_set (cfg_terminals cfg) skip) p k text s = Ok t ->
   exists all pe,
     cfg_tokenize cfg (tok_lines (IStr text)) = LOk (all ++ [mkTok END_TOKEN [] pe pe]) /\
@@ -63,7 +63,26 @@ Theorem token_names_are_terminals : forall c ls toks, lexicon_ok (c_lex c) -> cf
 Proof. exact token_names. Qed.
 Print Assumptions token_names_are_terminals.
 
-(* ---- parse(..., start_symbol_name=s) on a token list: any symbol that is not a helper symbol ---- *)
+(* ---- parse(tokens, start_symbol_name=s) of a parser made by the constructor: every s (None = the constructor's) ---- *)
+Theorem parse_at_sound : forall ug terminals smart start p k body e s t,
+  build ug terminals smart start = Ok p ->
+  (forall b, In b body -> tname b <> END_TOKEN) ->
+  parse_at p k (body ++ [e]) s = Ok t ->
+  tree_name t = call_root p s /\ valid_tree ug t /\ no_helper (p_sfxs p) t /\
+  kinds_ok (fun x => mem x (p_terminals p)) t /\ leaves t = map tok_pair body.
+Proof. exact parse_at_sound_l. Qed.
+Print Assumptions parse_at_sound.
+
+(* a per-call start symbol whose name contains '__' (every helper symbol does) is rejected with an
+   AssertionError, for every parser, budget and token list: no tree is rooted at a helper symbol.
+   Before /repo 2909322 parse(';', start_symbol_name='S__S00') returned such a tree
+   (finding helper-start-symbol-per-call, fixed). *)
+Theorem per_call_dunder_start_rejected : forall p k toks s,
+  has_dunder s = true -> parse_at p k toks (Some s) = Err AssertErr.
+Proof. exact dunder_start_rejected. Qed.
+Print Assumptions per_call_dunder_start_rejected.
+
+(* ---- the main loop started at any symbol that is not a helper symbol (what parse_at_sound rests on) ---- *)
 Theorem parse_sound_at : forall ug terminals smart start p k body e s t,
   build ug terminals smart start = Ok p ->
   mem s (p_sfxs p) = false ->
@@ -112,7 +131,6 @@ Example parse_text_sound_nonvacuous : forall smart,
   | Err _ => False
   | Ok p =>
       let sk := skip_set (cfg_terminals tx_cfg) tx_skip in
-      mem (call_root p None) (p_sfxs p) = false /\ mem (call_root p (Some tx_S)) (p_sfxs p) = false /\
       rmap leaves (parse_text tx_cfg sk p 8 tx_text None) = Ok tx_leaves /\
       parse_text tx_cfg sk p 8 tx_text2 None = Err LexicalErr /\
       parse_text tx_cfg sk p 8 tx_text4 None = Err ParsingErr /\
@@ -121,15 +139,14 @@ Example parse_text_sound_nonvacuous : forall smart,
 Proof. intros [|]; vm_compute; repeat split; reflexivity. Qed.
 Print Assumptions parse_text_sound_nonvacuous.
 
-(* ---- the per-call start symbol is only asserted to be a key of prods_map, which contains the helper
-   symbols: parse(text, start_symbol_name='S__S00') returns a tree rooted at a helper symbol.  (The argument
-   is documented as a debugging aid; reported as finding helper-start-symbol-per-call.) ---- *)
+(* ---- regression shape of the fixed finding: S__S00 IS a key of prods_map and a helper symbol of this
+   parser; the call is rejected ---- *)
 Definition tx_helper : sym := [83;95;95;83;48;48].     (* S__S00 *)
-Example per_call_helper_start_refuted :
+Example per_call_helper_start_rejected :
   match build_cfg tx_cfg tx_skip tx_ug false tx_E with
   | Err _ => False
-  | Ok p => mem tx_helper (p_sfxs p) = true /\
-            rmap tree_name (parse_text tx_cfg (skip_set (cfg_terminals tx_cfg) tx_skip) p 8 [59] (Some tx_helper)) = Ok tx_helper
+  | Ok p => mem tx_helper (p_sfxs p) = true /\ mem tx_helper (gkeys (p_grammar p)) = true /\
+            parse_text tx_cfg (skip_set (cfg_terminals tx_cfg) tx_skip) p 8 [59] (Some tx_helper) = Err AssertErr
   end.
-Proof. vm_compute. split; reflexivity. Qed.
-Print Assumptions per_call_helper_start_refuted.
+Proof. vm_compute. repeat split; reflexivity. Qed.
+Print Assumptions per_call_helper_start_rejected.
